@@ -29,6 +29,7 @@ ASSUMPTIONS = ['blank cells inside a criteria range are only asserted under text
 COLS = 'ABCDEFGH'
 WORDS = ['apple', 'Apple', 'APPLE', 'pear', 'Pear', 'plum', 'kiwi', 'Kiwi', 'grape', 'a?c', 'a*c', 'abc', 'aXc', 'axyc', 'zz', 'x',
          # words that a lenient date parser reads as dates: they are texts, equal only to themselves (whatever their case)
+         'a~bcd', '~xy', 'a~b',
          'sat', 'Saturday', 'may', 'May', 'jan', 'January', 'mon', 'Monday', 'a1', 'pm', 'noon', 'today']
 
 
@@ -328,7 +329,7 @@ def strategy():
     from hypothesis import strategies as st
     num = st.one_of(st.integers(-5, 12), st.integers(0, 6), st.sampled_from([2.5, 0.5, 7.25, -1.5]))
     word = st.sampled_from(WORDS)
-    patterns = st.sampled_from(['a*', '*e', 'p*', '?pple', 'a?c', 'a~?c', 'a~*c', '*a*', 'k???', '????', 'a*c', '*', 'p?ar', 'A*', '*PLE', 'x', 'gr*e', 'a?*', '*?', '??*', 'p?*r', 'a~?*', '?*c', 'x?*'])
+    patterns = st.sampled_from(['a*', '*e', 'p*', '?pple', 'a?c', 'a~?c', 'a~*c', '*a*', 'k???', '????', 'a*c', '*', 'p?ar', 'A*', '*PLE', 'x', 'gr*e', 'a?*', '*?', '??*', 'p?*r', 'a~?*', '?*c', 'x?*', 'a~b*', '~x?', 'a~b?d', '*~b*', 'a~b~*', '~~*'])
 
     @st.composite
     def spec(draw):
@@ -341,7 +342,7 @@ def strategy():
             cols.append([draw(cellst) for _ in range(height)])
         ncrit = len(cols)
         target = ncrit
-        cols.append([draw(st.one_of(st.integers(1, 50), st.integers(1, 50), st.none(), st.sampled_from([0.5, 2.25]))) for _ in range(height)])
+        cols.append([draw(st.one_of(st.integers(1, 50), st.integers(-9, 50), st.none(), st.sampled_from([0.5, 2.25, 0, 0, 0.0, -1.5]))) for _ in range(height)])
         # a second target column (for two-column target areas and as the landing zone of re-shaped SUMIF sum ranges)
         cols.append([draw(st.one_of(st.integers(51, 99), st.none())) for _ in range(height)])
 
